@@ -686,7 +686,15 @@ func runCheck(repo, verifDir string, opts CheckOpts, overlay map[string][]byte, 
 			var rr *ReplayResult
 			if overlay == nil {
 				// (with an in-memory overlay the real tree does not contain the change: nothing to replay against)
-				rr = tryReplay(P, fr, s, verifDir)
+				func() {
+					defer func() {
+						if r := recover(); r != nil {
+							rr = &ReplayResult{Summary: fmt.Sprint("replay not attempted (internal error: ", r, ")")}
+							cexMode, boundedMode, genDeadline = false, false, time.Time{}
+						}
+					}()
+					rr = tryReplay(P, fr, s, verifDir)
+				}()
 			}
 			s.Replay = rr
 			rec := map[string]any{"property": prop, "obligation": s.Site, "function": fr.Key, "kind": s.Kind, "what": s.Descr, "pos": s.Pos,
